@@ -1,5 +1,5 @@
 CHECK = {
-    "suites": [suite("calls", "c04", 250, 4000, stdin=True)],
+    "suites": [suite("calls", "c04", 250, 20000, stdin=True)],
     "lean_sources": ["ClusterVerif/Model/Pin.lean", "ClusterVerif/Model/C04.lean", "ClusterVerif/Spec/C04.lean",
                      "ClusterVerif/Model/C03.lean", "ClusterVerif/Spec/C03.lean", "ClusterVerif/Lemmas/C04.lean"],
     "rule": "histories of 4-25 Pin/PinPath/PinUpdate/Unpin/UnpinPath/rpc-pin calls over 12 CIDs (6 data, a sharded group), options drawn or derived "
